@@ -238,13 +238,13 @@ func c11Session(res *hx.Result, tr *c11Transports, spec c11SessionSpec, hang tim
 	callback := func() {
 		cbCount = append(cbCount, 0)
 		k := len(cbCount) - 1
-		// cbCount is never re-allocated while callbacks may run: see the capacity below.  The first
-		// callback of a session does not return (a user's callback may take its time): the others,
-		// the calls and the subscriptions are notified all the same.
+		// cbCount is never re-allocated while callbacks may run: see the capacity below.  One callback
+		// in sixteen, the first included, does not return (a user's callback may take its time): the
+		// others, the calls and the subscriptions are notified all the same.
 		ok := bounded(func() {
 			cl.OnDisconnect(func(error) {
 				atomic.AddInt32(&cbCount[k], 1)
-				if k == 0 {
+				if k%16 == 0 {
 					<-release
 				}
 			})
